@@ -44,7 +44,7 @@ CONSTANTS
   SecondCheck = TRUE
   Filter = TRUE
 CONSTRAINT Hwm
-INVARIANTS NotDone AtMostOnce NoStaleInvoke QueueBound FilterConsistent
+INVARIANTS AtMostOnce NoStaleInvoke QueueBound
 POSTCONDITION Accepted
 """ % (cap + 12, cap, lifecycle)
 
@@ -63,7 +63,7 @@ def run(ctx):
         out = {}
         mcs = ctx.pick(["MC_Proc_Libp2p", "MC_Life_Local"],
                        ["MC_Proc_Libp2p", "MC_Proc_Local", "MC_Life_Libp2p", "MC_Life_Local",
-                        "MC_Thorough_Libp2p", "MC_Thorough_Local", "MC_Thorough_Deep"])
+                        "MC_Thorough_Libp2p", "MC_Thorough_Deep", "MC_Thorough_Local"])
         for cfg in mcs:
             r = ctx.tlc(SPEC, "Broadcast", cfg=cfg, coverage=True, label=cfg, timeout=ctx.pick(600, 3000))
             acts = list(ALL_ACTIONS)
@@ -81,17 +81,18 @@ def run(ctx):
             ctx.tlc(SPEC, "DupFilter", cfg="MC_DupFilterHazard", label="MC_DupFilterHazard", expect=("violation",), dump_trace=False)
         return out
 
-    # Trace_Broadcast is run depth-first with the "invariant" NotDone: TLC stops at the first path that consumes the
-    # whole trace (accepted). A run that ends without reaching the end of the trace is a rejection.
+    # The trace specs are explored depth-first and stop TLC (TLCSet("exit")) on the first path that consumes the whole
+    # trace; a search that ends without such a path fails the postcondition: the trace is rejected.
     def validate(tp, cfg, cfg_text, label, module="Trace_Broadcast"):
         r = ctx.tlc(SPEC, module, cfg=cfg, cfg_text=cfg_text, mode="bfs", workers=1, timeout=ctx.pick(900, 3000),
-                    dump_trace=False, label=label, expect=("ok", "violation"), files={"trace.ndjson": tp}, view_queue=True)
-        if r.violated == "NotDone":
+                    dump_trace=False, label=label, expect=("ok", "violation"), files={"trace.ndjson": tp}, view_queue=True,
+                    extra_args=["-checkpoint", "0"])
+        if r.ok:
             with lock:
                 ctx.trace_events += sum(1 for _ in open(tp))
             return True, r
-        if r.violated not in ("Postcondition",):
-            ctx.broken("trace validation %s ended with %s" % (label, r.violated or "no verdict"))
+        if r.violated != "Postcondition":
+            ctx.broken("trace validation %s ended with %s" % (label, r.violated))
         return False, r
 
     # ---------------------------------------------------------------- one channel implementation
